@@ -26,6 +26,8 @@ var HandSeeds = []string{
 	"echo [a, b...]", "x := [[a, b for a <- c] for b <- d]", "f (x) => x", "echo x => {\n\techo x\n}", "var (\n\tx int // c\n)", "/* lead */\nfunc f() {} // line\n",
 	"x := y.(type)", "echo 1, 2...", "x := 1 + 2*3 - -4", "var e = a!.b?.c", "type T struct {\n\ta, b int\n\tc string\n}", "x := <-c", "c <- <-d",
 	"x := (a + b) * c", "x := a[i][j]", "var f = x => x + 1", "onStart => {\n}", "func f() (int, error) { return 1, nil }", "x := [1, 2][0]", "x := {\"a\": [1]}[\"a\"][0]",
+	"func f() { g() }\nfunc h() {}", "x := func() int { return 1 }\ny := 2", "func (t T) m() int { return t.n } // tail\n\nvar v = 1",
+	"if (T{1}.ok()) {\n}", "for (T{2}.ok() && f(T{3})) {\n}", "switch (T{n: 1}.get().ok()) {\n}", "println args ...", "echo x /* c */ ...", "x := (<-ch).(T)", "y := (*p).(T)",
 	"import \"c\"\nC.printf c\"hi\\n\"", "x := py\"hi\"", "echo 1s + 2ms", "echo `raw`", "echo 'c', 1.5e3, 0x1F, 1i", "x, y := 1, 2", "var _ = struct{ A int }{1}",
 }
 
@@ -96,14 +98,15 @@ func AllGo(maxBytes int) (names []string, srcs []string) {
 
 // Exprs enumerates the XGo expression grammar closed to the given depth (simplest first).
 func Exprs(depth int) []string {
-	atoms := []string{"a", "1", `"s"`, "x.y", "f()", "a[i]", "[1, 2]", "3ms", `"${b}c"`, "${H}", "{1: 2}"}
+	atoms := []string{"a", "1", `"s"`, "x.y", "f()", "a[i]", "[1, 2]", "3ms", `"${b}c"`, "${H}", "{1: 2}", "T{1}", "T{n: 1}", "[]int{1}", "x => x"}
 	if depth == 0 {
 		return atoms
 	}
 	sub := Exprs(depth - 1)
 	out := append([]string{}, atoms...)
 	for _, s := range sub {
-		out = append(out, "-"+s, "!"+s, "("+s+")", s+"!", s+"?", s+".f", s+"[0]", s+"[1:2]", "f("+s+")", "&"+s, "*"+s, "<-"+s, "["+s+" for v <- x]", "func() int { return "+s+" }()")
+		out = append(out, "-"+s, "!"+s, "("+s+")", s+"!", s+"?", s+".f", s+"[0]", s+"[1:2]", "f("+s+")", "&"+s, "*"+s, "<-"+s, "["+s+" for v <- x]", "func() int { return "+s+" }()",
+			s+".m()", s+".(T)", s+"...")
 	}
 	lim := sub
 	if len(lim) > 14 {
@@ -119,5 +122,35 @@ func Exprs(depth int) []string {
 
 // StmtsFor wraps an expression into the statement contexts of the grammar.
 func StmtsFor(e string) []string {
-	return []string{"x := " + e, "echo " + e, "return " + e, "if " + e + " {\n}", "for v <- " + e + " {\n}", "a <- " + e, "f " + e + ", 1", "x = " + e + "\ny++"}
+	return []string{"x := " + e, "echo " + e, "return " + e, "if " + e + " {\n}", "for v <- " + e + " {\n}", "a <- " + e, "f " + e + ", 1", "x = " + e + "\ny++",
+		// control clauses, bare and with the whole expression in parentheses (composite literals need them)
+		"if (" + e + ") {\n}", "for " + e + " {\n}", "for (" + e + ") {\n}", "switch " + e + " {\n}", "switch (" + e + ") {\n}", "for i := range (" + e + ") {\n}",
+		"if v := 1; (" + e + ") {\n}", "switch v := 1; (" + e + ") {\n}", "for v <- (" + e + ") {\n}",
+		"var x = " + e, "defer f(" + e + ")", "go f(" + e + ")", e}
+}
+
+// WidthSweep returns one-line function declarations, literals and methods, argument lists and literals whose
+// source width sweeps across the formatter's line-length thresholds, each with canonical and with compact
+// (blank-free) spacing: layout decisions that depend on a width must be stable under a second pass.
+func WidthSweep(step int) []string {
+	var out []string
+	pad := func(n int) string {
+		s := "a"
+		for len(s) < n {
+			s += " + a"
+		}
+		return s
+	}
+	for w := 20; w <= 140; w += step {
+		body := pad(w)
+		for _, hdr := range []string{"func sum(a, b, c, d int) (x, y int)", "func sum(a,b,c,d int)(x,y int)", "func (t T) sum(a,b int)(x int)", "func (t T) sum(a, b int) (x int)"} {
+			out = append(out, hdr+" { return "+body+" }")
+			out = append(out, hdr+"{return "+body+"}")
+		}
+		out = append(out, "var f = func(a,b int)(x int) { return "+body+" }", "var f = func(a, b int) (x int) { return "+body+" }",
+			"x := g(func(a,b int)(x int) { return "+body+" }, 1)",
+			"x := f("+body+", "+body+")", "x := []int{"+body+", 1}", "x := ["+body+", 1]", "x := T{a: "+body+", b: 2}", "if "+body+" > 1 { return }",
+			"type T struct{ a int; b string } // "+body, "x := "+body+" // "+body)
+	}
+	return out
 }
